@@ -22,6 +22,7 @@ import (
 	"net/http/httptest"
 	"os"
 	"path/filepath"
+	"regexp"
 	"runtime"
 	"sort"
 	"strconv"
@@ -30,6 +31,7 @@ import (
 	"sync/atomic"
 	"time"
 
+	"github.com/prometheus/client_golang/prometheus"
 	"github.com/prometheus/common/model"
 	"github.com/prometheus/prometheus/model/labels"
 
@@ -461,6 +463,9 @@ type c13E2E struct {
 	FinalLs  []string    `json:"result_labels,omitempty"`
 	Expected []c13R      `json:"expected_unsliced,omitempty"`
 	PermResp bool        `json:"server_permutes_series_order_per_response,omitempty"`
+	Repeats  int         `json:"times_the_query_is_asked"`
+	FastAt   int64       `json:"slice_answered_first_contains_ns,omitempty"`
+	Repeated [][]c13R    `json:"result_of_repeated_call,omitempty"`
 	Err      string      `json:"error,omitempty"`
 	mu       sync.Mutex
 }
@@ -506,7 +511,14 @@ func (s *c13Server) ServeHTTP(w http.ResponseWriter, r *http.Request) {
 	// random per-slice delay => arrival order of the slice responses varies
 	h := fnv.New64a()
 	fmt.Fprintf(h, "%d/%d/%d", s.seed, c.ID, startMs)
-	time.Sleep(time.Duration(h.Sum64()%4000) * time.Microsecond)
+	if c.FastAt != 0 {
+		// designated arrival order: the slice containing FastAt answers at once, all others clearly later
+		if !(startMs*c13Ms <= c.FastAt && c.FastAt <= endMs*c13Ms) {
+			time.Sleep(time.Duration(4000+h.Sum64()%3000) * time.Microsecond)
+		}
+	} else {
+		time.Sleep(time.Duration(h.Sum64()%4000) * time.Microsecond)
+	}
 	var out []fpSeries
 	for _, ser := range c.Series {
 		var ts []int64
@@ -524,7 +536,8 @@ func (s *c13Server) ServeHTTP(w http.ResponseWriter, r *http.Request) {
 		pr := rand.New(rand.NewSource(int64(h.Sum64() >> 1)))
 		pr.Shuffle(len(out), func(i, j int) { out[i], out[j] = out[j], out[i] })
 	}
-	fpWriteMatrix(w, out)
+	// every response in a different legal rendering (key order, whitespace, optional members, number formats)
+	fpWriteMatrixV(w, out, fpVariantFrom(h.Sum64()>>7))
 }
 
 type c13AbsRange struct {
@@ -568,21 +581,73 @@ func c13RunE2E(srv *c13Server, url string, c *c13E2E, watch *c13Watch) string {
 	srv.mu.Lock()
 	srv.cases[name] = c
 	srv.mu.Unlock()
-	prom := promapi.NewPrometheus("fake", url, "", nil, 30*time.Second, 8, 100000, nil)
-	prom.StartWorkers()
-	defer prom.Close()
+	// the client as pint builds it: a FailoverGroup, whose StartWorkers gives its servers the shared query CACHE
+	fg := promapi.NewFailoverGroup("fake", url,
+		[]*promapi.Prometheus{promapi.NewPrometheus("fake", url, "", nil, 30*time.Second, 8, 100000, nil)},
+		true, "up", []*regexp.Regexp{}, []*regexp.Regexp{}, nil)
+	reg := prometheus.NewRegistry()
+	fg.StartWorkers(reg)
+	defer fg.Close(reg)
+	params := c13AbsRange{start: c13T(c.Start), end: c13T(c.End), dur: time.Duration(c.Lookback), step: time.Duration(c.Step)}
 	watch.enter(fmt.Sprintf("e2e-%d", c.ID), c, 60*time.Second)
-	res, err := prom.RangeQuery(context.Background(), name,
-		c13AbsRange{start: c13T(c.Start), end: c13T(c.End), dur: time.Duration(c.Lookback), step: time.Duration(c.Step)})
+	res, err := fg.RangeQuery(context.Background(), name, params)
 	watch.leave()
 	c.mu.Lock()
-	sort.Slice(c.Requests, func(i, j int) bool { return c.Requests[i].S < c.Requests[j].S })
+	firstReqs := len(c.Requests)
 	c.mu.Unlock()
 	if err != nil {
 		c.Err = err.Error()
 		return "RangeQuery failed against a healthy server: " + err.Error()
 	}
 	c.Final = c13FromMTR(res.Series.Ranges)
+	// the same question again on the same client (pint watch asks every iteration; other rules ask the same probe): the
+	// answers - now served from the cache - must be the same, and no answer handed to a caller may change afterwards
+	type handed struct {
+		res  *promapi.RangeQueryResult
+		snap []c13R
+	}
+	all := []handed{{res, append([]c13R(nil), c.Final...)}}
+	repeatFail := ""
+	for k := 1; k < c.Repeats; k++ {
+		watch.enter(fmt.Sprintf("e2e-%d", c.ID), c, 60*time.Second)
+		again, err2 := fg.RangeQuery(context.Background(), name, params)
+		watch.leave()
+		if err2 != nil {
+			repeatFail = fmt.Sprintf("the same range query asked again (call %d) fails: %v", k+1, err2)
+			break
+		}
+		all = append(all, handed{again, c13FromMTR(again.Series.Ranges)})
+		if !c13EqRs(c13Canon(all[k].snap), c13Canon(c.Final)) {
+			c.Repeated = append(c.Repeated, all[k].snap)
+			repeatFail = fmt.Sprintf("the same range query asked again on the same client (call %d, answered from the query cache) "+
+				"returns different presence intervals than the first time", k+1)
+			break
+		}
+	}
+	if repeatFail == "" {
+		for k, hd := range all {
+			if !c13EqRs(c13FromMTR(hd.res.Series.Ranges), hd.snap) {
+				repeatFail = fmt.Sprintf("the result handed to the caller of call %d was modified afterwards by a later query", k+1)
+			}
+		}
+	}
+	c.mu.Lock()
+	// slices asked again by the repeated calls (cache misses) are the same requests, not new ones
+	kept := c.Requests[:firstReqs:firstReqs]
+	for _, rq := range c.Requests[firstReqs:] {
+		dup := false
+		for _, o := range c.Requests[:firstReqs] {
+			if o == rq {
+				dup = true
+			}
+		}
+		if !dup {
+			kept = append(kept, rq)
+		}
+	}
+	c.Requests = kept
+	sort.Slice(c.Requests, func(i, j int) bool { return c.Requests[i].S < c.Requests[j].S })
+	c.mu.Unlock()
 	// every result range must carry the label set of a served series, and its fingerprint must be that label set's
 	served := map[uint64]labels.Labels{}
 	for _, ser := range c.Series {
@@ -624,6 +689,9 @@ func c13RunE2E(srv *c13Server, url string, c *c13E2E, watch *c13Watch) string {
 	}
 	if badLabels != "" {
 		return badLabels
+	}
+	if repeatFail != "" {
+		return repeatFail
 	}
 	// result order: sort.Stable by (labels, start) => per series ascending starts
 	last := map[uint64]int64{}
@@ -746,6 +814,9 @@ func runC13(args []string) int {
 	defer hs.Close()
 
 	e2e := func(c *c13E2E, tag string) {
+		if c.Repeats == 0 {
+			c.Repeats = 2 + c.ID%2
+		}
 		what := c13RunE2E(srv, hs.URL, c, watch)
 		boundary := false
 		if len(c.Requests) >= 2 {
@@ -859,7 +930,46 @@ func runC13(args []string) int {
 		if per < 1 {
 			per = 1
 		}
-		if minimal {
+		flapSlice := -1
+		lo, hi := int((start-g0+step-1)/step), int((end-g0)/step)
+		if !minimal && per >= 20 && r.Intn(5) == 0 {
+			var full []int
+			for k := 1; k*per <= hi; k++ {
+				if (k-1)*per >= lo && (k+1)*per-1 <= hi {
+					full = append(full, k)
+				}
+			}
+			if len(full) > 0 {
+				flapSlice = full[r.Intn(len(full))]
+			}
+		}
+		if flapSlice >= 0 {
+			// a series flapping inside ONE slice (several isolated samples) and seen once or twice in earlier slices, nothing
+			// touching a slice boundary or another run: no range merges with any other, the busy slice answers first
+			hist("e2e=flapping-in-one-slice-answered-first")
+			pt := func(i int) int64 { return g0 + int64(i)*step }
+			m := []int{3, 5, 6, 7}[r.Intn(4)]
+			extra := 1 + r.Intn([]int{1, 3, 2, 1}[map[int]int{3: 0, 5: 1, 6: 2, 7: 3}[m]])
+			ns := 1 + r.Intn(2)
+			picked := r.Perm(len(c13Labels))[:ns]
+			for si, kx := range picked {
+				var ivs []c13TR
+				if si == 0 {
+					for t := 0; t < m; t++ {
+						ivs = append(ivs, c13TR{pt(flapSlice*per + 2 + 2*t), pt(flapSlice*per + 2 + 2*t)})
+					}
+					for u := 0; u < extra; u++ {
+						i := (flapSlice-1)*per + 3 + 4*u
+						ivs = append(ivs, c13TR{pt(i), pt(i)})
+					}
+				} else {
+					i := (flapSlice-1)*per + 5
+					ivs = append(ivs, c13TR{pt(i), pt(i)})
+				}
+				c.Series = append(c.Series, c13MkSeries(kx, ivs))
+			}
+			c.FastAt = pt(flapSlice*per + 1)
+		} else if minimal {
 			// one series: present throughout, or up to / from one point around the boundary, or with the boundary point missing
 			pt := func(i int) int64 { return g0 + int64(i)*step }
 			bi := int((minB - g0) / step) // index of the boundary between the two slices
@@ -1225,11 +1335,13 @@ func runC13(args []string) int {
 			js = append(js, map[string]any{"metric": m, "sample_ms": ts})
 		}
 		rec := httptest.NewRecorder()
-		fpWriteMatrix(rec, out)
+		variant := fpVariantFrom(r.Uint64())
+		hist(fmt.Sprintf("stream-data-key-order=%d", variant.DataOrder))
+		fpWriteMatrixV(rec, out, variant)
 		body := rec.Body.Bytes()
 		cid := next()
 		res, err := promapi.VerifStreamSampleStream(body, time.Duration(step))
-		cs := map[string]any{"kind": "streamSampleStream", "step_ns": step, "response_series": js}
+		cs := map[string]any{"kind": "streamSampleStream", "step_ns": step, "response_series": js, "response_body": string(body)}
 		if err != nil {
 			rep.fail(strconv.Itoa(cid), "streamSampleStream rejects a well-formed matrix response: "+err.Error(), cs)
 			continue
